@@ -43,7 +43,7 @@ int_tree = gf.tree_strategy(int_leaf, calls=[('ID', (1, 1))], ops=['+', '-', '*'
 
 blank_leaf = st.sampled_from([['cell', 'E5'], ['var', 'NULL'], ['cell', '$E$5']])        # nothing answers E5: a blank, which & joins as nothing and which equals ""
 amp_operand = st.one_of(int_leaf, int_leaf, int_leaf.map(lambda l: ['neg', l]), int_tree.map(lambda t: ['paren', t]), int_tree.map(lambda t: ['call', 'ID', [t]]), blank_leaf, blank_leaf.map(lambda l: ['call', 'ID', [l]]),
-                        st.just(['str', '', '"']))
+                        st.just(['str', '', '"']), st.sampled_from([['str', 'top\nbottom', '"'], ['str', 'a\\b', '"'], ['str', 'q\\x\tz', '"'], ['str', '\\N{1}', "'"]]))     # text is taken as written: a line break, a tab or a backslash inside it means itself
 
 
 def amp_chain():
@@ -59,7 +59,7 @@ def _chain(xs):
 
 @st.composite
 def top_tree(draw):
-    kind = draw(st.sampled_from(['arith', 'arith', 'cmp', 'amp', 'ampcmp', 'callcmp', 'cmpcmp', 'blankcmp', 'texterr']))
+    kind = draw(st.sampled_from(['arith', 'arith', 'cmp', 'amp', 'ampcmp', 'callcmp', 'cmpcmp', 'blankcmp', 'texterr', 'emptytext']))
     if kind == 'arith':
         t = draw(arith_tree)
         if draw(st.booleans()):
@@ -91,6 +91,14 @@ def top_tree(draw):
         t = ['bin', op, txt, e] if draw(st.booleans()) else ['bin', op, e, txt]
         if draw(st.booleans()):
             t = ['bin', draw(st.sampled_from(gf.ARITH)), t, draw(int_leaf)]
+    elif kind == 'emptytext':
+        # blanks joined by & make the empty text, which is no number: under + - * / (as the divisor too) the value is #VALUE!
+        nothing = st.one_of(blank_leaf, blank_leaf.map(lambda l: ['call', 'ID', [l]]), st.just(['str', '', '"']))
+        e = ['paren', _chain(draw(st.lists(nothing, min_size=2, max_size=3)))]
+        op = draw(st.sampled_from(['/', '/', '*', '+', '-']))
+        t = ['bin', op, draw(int_leaf), e]
+        if draw(st.booleans()):
+            t = ['bin', draw(st.sampled_from(gf.ARITH)), draw(int_leaf), t] if draw(st.booleans()) else ['bin', draw(st.sampled_from(gf.ARITH)), t, draw(int_leaf)]
     elif kind == 'cmpcmp':
         # a parenthesised comparison (a logical) compared with a small number, next to the same comparison between the numbers themselves
         small = st.sampled_from([['num', '0'], ['num', '1'], ['num', '2'], ['dec', '1.0'], ['dec', '0.0'], ['var', 'v_one'], ['var', 'v_zero']])
@@ -184,10 +192,8 @@ def check(case):
         raise Skip('reference-unspecified')
     except OverflowError:
         raise Skip('overflow')
-    if isinstance(want, Err) and has_cmp_or_amp(t):
-        raise Skip('zero-divisor-under-comparison')
-    if any(n[0] == 'bin' and n[1] in gf.CMP for n in gf.walk(t)):
-        # an error operand of a comparison is C08's subject
+    if has_cmp_or_amp(t):
+        # an error operand of a comparison or of & is C08's subject (an & or a comparison inside an operand that ends in an error is not)
         for n in gf.walk(t):
             if n[0] == 'bin' and (n[1] in gf.CMP or n[1] == '&'):
                 for side in (n[2], n[3]):
@@ -228,6 +234,10 @@ def structure(t):
         out.append('call')
     if sum(1 for n in gf.walk(t) if n[0] == 'call' and n[1] == 'EV') >= 2:
         out.append('two-nested-evaluations')
+    if any(n[1] in gf.ARITH and any(c[0] == 'paren' and c[1][0] == 'bin' and c[1][1] == '&' for c in (n[2], n[3])) for n in bins):
+        out.append('joined-text-under-arithmetic')
+    if any(n[0] == 'str' and any(ch in n[1] for ch in '\n\t\\') for n in gf.walk(t)):
+        out.append('text-with-line-break-or-backslash')
     return out
 
 
@@ -308,7 +318,7 @@ LAWS = [
         strategy=st.fixed_dictionaries({'fail': st.lists(st.sampled_from(FAILING), min_size=1, max_size=60)}), nontrivial=lambda c: len(c['fail']) >= 10,
         rule='1-60 evaluations that fail inside open parentheses (unknown names, truncated formulas, stray characters), then four parenthesised formulas on the same and on a fresh parser: values unchanged'),
     Law('tree_value', check, strategy=top_tree(), classes=classes, nontrivial=nontrivial, quick=12000, thorough=300000, shards=(16, 16),
-        required=('mixed-levels', 'right-compound-same-level', 'neg-under-binary', 'comparison', 'amp', 'call', 'grouping-sensitive', 'two-nested-evaluations'),
+        required=('mixed-levels', 'right-compound-same-level', 'neg-under-binary', 'comparison', 'amp', 'call', 'grouping-sensitive', 'two-nested-evaluations', 'joined-text-under-arithmetic', 'text-with-line-break-or-backslash'),
         rule='tree rendered three ways (minimal parentheses per the stated precedence, every sub-expression parenthesised, minimal plus generated redundant pairs); each must evaluate to the native value of the tree '
              '(ints as ints, floats bit-identical, booleans, concatenated text, #DIV/0!); non-trivial = two binary operators of different levels, a compound right operand of the same level or a unary minus under a binary operator, '
              'AND some re-association of the minimal rendering evaluates differently (a precedence slip would be visible)'),
